@@ -78,3 +78,14 @@ reg('C35', engine='pysym',
          'pkg-config output modelled as its token list, subprocess.Popen stubbed. Bounds: <=2+1(2) tokens of <=3(4) '
          'characters per package, 2 packages.',
     technique='symbolic execution of the real Python functions via proxy strings, SMT (z3 bit-vectors)')
+
+reg('C30', engine='pysym + llsym',
+    text='Python side: the real _process_macros/_add_integer_constant/_parse_constant/convert_pycparser_error run on '
+         'symbolic strings (every ASCII string up to the bound), symbolic ints and symbolic line numbers through '
+         'proxy values with solver-guided forking; any path ending in an exception class other than the cffi ones is '
+         'a violation. C side: the real IR of parse_c_type.c on every byte string up to the bound with a bounds '
+         'monitor on the input and output buffers.',
+    note='Trusted: pysym/SymStr proxy semantics incl. the model of int() and the regex NFA (validated against '
+         'CPython on each change), llsym semantics. Not covered: exceptions raised inside pycparser itself, '
+         'non-ASCII text, longer inputs.',
+    technique='symbolic execution via proxy values (Python) and of LLVM IR (C), SMT (z3)')
